@@ -614,3 +614,115 @@ func ruleSegNum(p *Prog, r *Report) {
 func init() {
 	register("C03", "", ruleNatCmp, ruleSegNum)
 }
+
+// ---- R-SIBLING-INIT: sibling results of one parser initialise the same fields ---------------------------
+//
+// A constructor helper that returns a structure from several branches (one per accepted shape) and
+// fills a field in some branches but not in others leaves that field at its zero value for the shapes
+// of the other branches; when the field carries a component or a marker, versions of that shape lose it
+// (a pre-release base that compares equal to its release). The sibling allocation sites of one helper
+// must store the same set of fields. The ecosystem's Version type itself is exempt: its constructors
+// legitimately build different kinds of version (date-based, dev branch, unparsed text) with different
+// fields, which R-KINDGUARD and the marker rules cover.
+func ruleSiblingInit(p *Prog, r *Report) {
+	n := 0
+	for _, e := range p.Ecos {
+		for _, fn := range p.RepoReachable(e.NewVer) {
+			if fn.Blocks == nil {
+				continue
+			}
+			type site struct {
+				a      *ssa.Alloc
+				fields map[int]bool
+			}
+			byType := map[string][]*site{}
+			var order []string
+			for _, b := range fn.Blocks {
+				for _, ins := range b.Instrs {
+					a, ok := ins.(*ssa.Alloc)
+					if !ok {
+						continue
+					}
+					pt, ok := a.Type().Underlying().(*types.Pointer)
+					if !ok {
+						continue
+					}
+					st, ok := pt.Elem().Underlying().(*types.Struct)
+					if !ok || types.Identical(pt.Elem(), e.VerT) || a.Comment != "complit" {
+						continue
+					}
+					s := &site{a: a, fields: map[int]bool{}}
+					for _, ref := range *a.Referrers() {
+						if fa, ok := ref.(*ssa.FieldAddr); ok {
+							for _, r2 := range *fa.Referrers() {
+								if sto, ok := r2.(*ssa.Store); ok && sto.Addr == ssa.Value(fa) {
+									s.fields[fa.Field] = true
+								}
+							}
+						}
+					}
+					_ = st
+					k := pt.Elem().String()
+					if byType[k] == nil {
+						order = append(order, k)
+					}
+					byType[k] = append(byType[k], s)
+				}
+			}
+			for _, k := range order {
+				sites := byType[k]
+				if len(sites) < 2 {
+					continue
+				}
+				// only results: the structure (or its address) is returned
+				returned := false
+				for _, s := range sites {
+					for _, ref := range *s.a.Referrers() {
+						switch x := ref.(type) {
+						case *ssa.Return:
+							returned = true
+						case *ssa.UnOp:
+							for _, r2 := range *x.Referrers() {
+								if _, ok := r2.(*ssa.Return); ok {
+									returned = true
+								}
+							}
+						}
+					}
+				}
+				if !returned {
+					continue
+				}
+				n++
+				st := sites[0].a.Type().Underlying().(*types.Pointer).Elem().Underlying().(*types.Struct)
+				union := map[int]bool{}
+				for _, s := range sites {
+					for f := range s.fields {
+						union[f] = true
+					}
+				}
+				var miss []string
+				for _, s := range sites {
+					for f := range union {
+						if !s.fields[f] {
+							miss = append(miss, fmt.Sprintf("%s at %s", st.Field(f).Name(), p.Pos(s.a.Pos())))
+						}
+					}
+				}
+				sort.Strings(miss)
+				key := fmt.Sprintf("%s: %s fills the same fields of its result in every branch", e.Name, fn.Name())
+				if len(miss) > 0 {
+					r.Bad("R-SIBLING-INIT", key, p.FnPos(fn), fmt.Sprintf("%d sibling results of the same type; left at its zero value: %s. The shapes handled by that branch lose what the other branches record there", len(sites), strings.Join(miss, "; ")))
+				} else {
+					r.Ok("R-SIBLING-INIT", key, p.FnPos(fn), fmt.Sprintf("%d sibling results, each stores the same %d field(s)", len(sites), len(union)))
+				}
+			}
+		}
+	}
+	r.Floor("R-SIBLING-INIT", 1)
+	_ = n
+}
+
+func init() {
+	register("C03", "", ruleSiblingInit)
+}
